@@ -206,3 +206,62 @@ PROPS['C19'] = {
     'level': 'Static provenance analysis of message destinations and of the receivers/threshold arguments of nested openings. Decides that no '
              'message of an output/transfer can be addressed to a party outside the receivers.',
 }
+
+from . import rules_pai as pa
+
+INT_PROTOCOLS = ['mul', 'prod', 'all', 'in_prod', 'scalar_mul', '_if_else_list', '_if_swap_list', 'matrix_prod', 'sgn', 'lsb', '_mod',
+                 'trailing_zeros', 'is_zero_public', '_is_zero', 'gauss', 'schur_prod', 'random_bits', 'to_bits', 'trunc', 'mod', '_convert',
+                 'reciprocal', 'output', '_reshare']
+
+PROPS['C11'] = {
+    'rules': [R(pa.rule_SS1), R(pa.rule_NL1), R(ss.rule_SS2), R(ss.rule_SS4), R(ss.rule_SS6), R(pc.rule_PC9), R(fr.rule_KEY1), R(ss.rule_PR1)],
+    'floors': {'SS1': 60, 'NL1': 25, 'SS2': 2, 'SS4': 9, 'SS6': 9, 'PC9': 14, 'KEY1': 9, 'PR1': 12},
+    'explanation': 'Degree typestate of every share by abstract interpretation of all protocol coroutines (PUB / SEC / SH(d) with path forking on '
+                   'the recurring flags): no value of degree 2t is returned, wrapped as a secure object, truncated or multiplied again without '
+                   'passing _reshare, and a degree-2t value is opened only with a threshold covering it (SS1); only field-linear local operations '
+                   'are applied to plain shares (NL1); dealing uses the current threshold (SS2); resharing deals from and collects for the same '
+                   '2t+1 parties at the right points (SS4, SS6); all parties feed PRSS with the same fresh input, their own id and PRFs of the '
+                   'current keys, and zero-sharings have d = t coefficients (PC9, KEY1, PR1).',
+    'assumptions': ['secure objects handed to a coroutine are degree-t sharings (induction over the program)',
+                    'flags named sh* / isinstance(.., SecureObject) tell whether an operand is shared'],
+    'level': 'Static abstract interpretation (no execution) of the protocol coroutines over a degree/randomness lattice, plus provenance and routing '
+             'rules. Decides that no degree-2t value is ever stored or used as a degree-t sharing and that dealing/recombination agree on points '
+             'and parties -- the structural reasons for consistency, for all m, t, PRSS on/off.',
+}
+PROPS['C18'] = {
+    'rules': [R(pa.rule_MK1), R(pa.rule_MK2), R(pa.rule_SS1), R(pc.rule_PC9), R(ss.rule_PR1)],
+    'floors': {'MK1': 40, 'MK2': 12, 'SS1': 60, 'PC9': 14, 'PR1': 12},
+    'explanation': 'For every opening inside library code (runtime, random, statistics, secgroups, seclists, secpols, sectypes) the abstract '
+                   'interpreter computes which random sources the opened value depends on: it must be blinded by a field-uniform value, '
+                   'statistically masked, a one-time pad of random bits in a binary field, depend on fresh randomness only, or be listed as '
+                   'public by design with its reason (MK1). For statistical masks the bound of the random term, followed through shifts and '
+                   'public factors as a linear form in (k, l, f, ...), must reach k bits above the power-of-two offset that marks the magnitude '
+                   'of the masked value, on every definition of the bound (MK2). Degree-2t openings are re-randomised/covered (SS1), every mask '
+                   'uses a fresh common PRSS input and zero-sharings have full degree (PC9, PR1).',
+    'assumptions': ['inputs respect the documented ranges (l-bit values; a in [0, n) for np_unit_vector)', 'k = options.sec_param'],
+    'level': 'Static data-dependence (abstract interpretation) and symbolic bit-length analysis of all ~55 opening sites. Decides that every value '
+             'revealed inside a protocol carries a mask of the required kind and size; the resulting statistical distance is not computed. Found two '
+             'genuine defects (np_pow mask bound, _mod quotient mask), both repaired.',
+}
+PROPS['C01'] = {
+    'rules': [R(pa.rule_SS1, scope=INT_PROTOCOLS), R(pa.rule_NL1, scope=INT_PROTOCOLS), R(ss.rule_SS4), R(ss.rule_SS6), R(pc.rule_PC9, scope=['Runtime.' + x for x in INT_PROTOCOLS] + ['Runtime._randoms'])],
+    'floors': {'SS1': 25, 'NL1': 12, 'SS4': 9, 'SS6': 9, 'PC9': 8},
+    'explanation': 'Plumbing clauses for the integer protocols (mul, prod, all, in_prod, scalar_mul, if_else/if_swap lists, matrix_prod, sgn, lsb, _mod, '
+                   'trailing_zeros, is_zero_public, _is_zero, gauss, ...): every product of two shared values is degree-reduced or opened with 2t '
+                   'before reuse (SS1); shares are only combined linearly -- no bitwise or comparison operator is applied to a share as if it were '
+                   'the value (NL1); recombination uses the dealt points and each receiver collects exactly the shares sent to it (SS4, SS6); PRSS '
+                   'inputs are fresh and common (PC9). These are the parts that differ between m = 1 and m > 1.',
+    'assumptions': ['the integer identities of the protocols (Toft comparison, lsb, divsteps) are correct as algorithms: not decided here'],
+    'level': 'Static abstract interpretation and routing analysis restricted to the integer protocol coroutines. Decides necessary conditions that the '
+             'single-party test suite cannot exercise; does not decide the arithmetic identities.',
+}
+PROPS['C04'] = {
+    'rules': [R(pa.rule_SS1, scope=['reciprocal', 'np_reciprocal', 'is_zero_public', 'np_is_zero_public', 'to_bits', 'np_to_bits', 'random_bits', 'np_random_bits']),
+              R(pa.rule_NL1, scope=['reciprocal', 'np_reciprocal', 'is_zero_public', 'np_is_zero_public', 'to_bits', 'np_to_bits', 'random_bits', 'np_random_bits'])],
+    'floors': {'SS1': 12, 'NL1': 6},
+    'explanation': 'Plumbing clauses of the field protocols: reciprocal, public zero test, bit decomposition (characteristic-2 branch) and random bits '
+                   'open their degree-2t products only with threshold 2t or after resharing, on every combination of field size class and PRSS option '
+                   '(SS1); shares are combined linearly only (NL1).',
+    'assumptions': ['field arithmetic is correct (C20)'],
+    'level': 'Static abstract interpretation of the field protocol coroutines; the small-field lifting clause is checked under C39.',
+}
